@@ -60,12 +60,14 @@ def server_fuzz(ctx, sanitize, n):
                    files={"/ok.txt": b"ok\n", "/big.bin": b"z" * 300000}, modules=["mod_proxy"], sanitize=sanitize).start()
     why = None; sent = 0
     def rss():
+        if s.proc is None: return 0
         try:
             for l in open("/proc/%d/status" % s.proc.pid):
                 if l.startswith("VmRSS:"): return int(l.split()[1])
         except OSError: return 0
         return 0
     def fds():
+        if s.proc is None: return 0
         try: return len(os.listdir("/proc/%d/fd" % s.proc.pid))
         except OSError: return 0
     try:
